@@ -19,6 +19,7 @@ package indh
 
 import (
 	"encoding/json"
+	"errors"
 	"os"
 	"path/filepath"
 	"sort"
@@ -129,9 +130,16 @@ type runner struct {
 	n        int
 	executed map[string]int
 	failed   map[string]bool
+	allowErr bool // the runner itself may fail (an error, not an exit status)
 }
 
+var errRunner = errors.New("the shell cannot run this command")
+
 func (r *runner) Run(cmd string, stream iostream.IOStream, task string, env []string) (shell.Result, error) {
+	if r.allowErr && sym.Bool("runerr"+strconv.Itoa(r.n)) {
+		sym.Reach("Inv/runner-error")
+		return shell.Result{}, errRunner
+	}
 	st := sym.Int("status"+strconv.Itoa(r.n), 0, 1)
 	r.n++
 	r.executed[task]++
@@ -169,6 +177,11 @@ func inputsOf(tree *parserTree, t string) inputs {
 	in := inputs{paths: paths}
 	for _, p := range paths {
 		in.contents = append(in.contents, read(p))
+	}
+	for _, p := range paths {
+		if !exists(p) {
+			return in // a literal dependency is missing: the task can neither run nor be up to date
+		}
 	}
 	if len(paths) > 0 {
 		d, err := hash.New().Hash(paths)
@@ -228,6 +241,8 @@ func Step() {
 		requests = append(requests, splitList(r))
 	}
 	allowForce := sym.ParamInt("force", 1) == 1
+	allowErr := sym.ParamInt("runerr", 0) == 1
+	allowMissing := sym.ParamInt("missing", 0) == 1
 	cleanup := setup(text)
 	defer cleanup()
 	parsed, err := parser.New(text).Parse()
@@ -301,6 +316,10 @@ func Step() {
 
 	// ---------------- the environment edits, then one invocation ----------------
 	for _, f := range files {
+		if allowMissing && sym.Bool("curabsent_"+f) {
+			del(f)
+			continue
+		}
 		put(f, sym.String("cur_"+f, 1))
 	}
 	for _, f := range globfiles {
@@ -312,7 +331,7 @@ func Step() {
 	}
 	force := allowForce && sym.Bool("force")
 	req := requests[sym.Choice("request", len(requests))]
-	r := &runner{executed: map[string]int{}, failed: map[string]bool{}}
+	r := &runner{executed: map[string]int{}, failed: map[string]bool{}, allowErr: allowErr}
 	sf, err := file.New(parsed, root, nopLogger{})
 	if err != nil {
 		panic(err.Error())
@@ -320,7 +339,32 @@ func Step() {
 	results, rerr := sf.Run(iostream.Null(), r, force, req...)
 	if rerr != nil {
 		sym.Observe("error", true)
-		sym.Violation("Ind/run-returned-an-error", rerr.Error())
+		if !allowErr && !allowMissing {
+			sym.Violation("Ind/run-returned-an-error", rerr.Error())
+			return
+		}
+		// The run stopped part-way (the runner could not run a command, or a task's files could
+		// not be hashed). No results are returned; what the tasks that did complete recorded
+		// must still satisfy the invariant. A task completed if all its commands returned.
+		sym.Reach("Inv/step-stopped-with-an-error")
+		for _, t := range names {
+			if r.executed[t] == 0 {
+				continue
+			}
+			cur := inputsOf(tree, t)
+			g := gh[t]
+			switch {
+			case r.failed[t]:
+				if g.succeeded && samePaths(cur.paths, g.last.paths) {
+					g.exempt = sym.Or(g.exempt, sameContents(cur.contents, g.last.contents))
+				}
+			case r.executed[t] == declared[t].Commands:
+				g.succeeded = true
+				g.last = cur
+				g.exempt = false
+			}
+		}
+		checkInvariant(names, gh)
 		return
 	}
 	sym.Reach("Inv/step-done")
@@ -368,7 +412,11 @@ func Step() {
 			g.exempt = false
 		}
 	}
-	// ---------------- the invariant holds again ----------------
+	checkInvariant(names, gh)
+}
+
+// checkInvariant: the representation invariant on the post-state.
+func checkInvariant(names []string, gh map[string]*ghost) {
 	post := readCache()
 	if post == nil {
 		sym.Violation("Ind/no-readable-cache-after-a-run", "")
